@@ -122,7 +122,12 @@ func c13Script(mode string, pass []c13Stmt) script {
 	var s script
 	s.cfg(false, 0)
 	s.k("init")
-	slow := 0
+	slow, nosync := 0, false
+	if mode == "log-nosync" {
+		// the database is opened the way csvimport -disable-wal-fsync opens
+		// it (no fsync after a log append); everything else as in "log"
+		mode, nosync = "log", true
+	}
 	if mode == "log-slow" {
 		// every page write of a flush takes 15 ms: whatever runs while pages
 		// are being written has time to show up in the event log
@@ -134,6 +139,9 @@ func c13Script(mode string, pass []c13Stmt) script {
 			s.add(proto.Op{K: "sleep", N: st.gapMs})
 		}
 		s.add(proto.Op{K: "c13stmt", SQL: proto.Text(st.sql), S: st.park, N: st.parkMs})
+		if nosync && st.sql == "CREATE DATABASE d2" {
+			s.add(proto.Op{K: "open-nosync", S: "d1"})
+		}
 	}
 	s.add(proto.Op{K: "sleep", N: 150})
 	s.k("close")
@@ -222,7 +230,7 @@ func parseRaceLogs(dir string) []raceReport {
 }
 
 func checkC13(c *core.Ctx) []core.Floor {
-	c.Rule = "one session goroutine against the REAL 100 ms flush goroutine. Each pass executes every statement kind {CREATE TABLE, INSERT single, INSERT multi-row (splitting; also 300 rows; a table grown to 1250 rows in five statements, through the split of its internal root), UPDATE and DELETE (also over 300 rows), SELECT scan, SELECT join} with placements {idle gap > 1 tick before and after, park of > 2 ticks at the statement's 2nd page change, park of > 2 ticks inside the log append, SELECT: park at a cache miss}, on fresh pages and after a reload (cold cache); the database in use is created again and a missing one selected (both refused) before the first table; eight tables are created in one database, each CREATE held open, so that the CREATE whose catalog row splits the catalog root is among them. (a) -race build: handlers only sleep on the session goroutine and add no synchronisation; every data-race report with mkdb frames is a violation (happens-before reasoning, independent of the observed timing). (b) plain build (once as is, once with every page write of a flush slowed down to 15 ms by a sleep in the write hook): every hook event is logged with its goroutine id; offline checker: no page or header write by ANY goroutine between a statement's first page change and the completion of its log append (CREATE TABLE: its last page change); the same checker - and the race build - runs over passes with a page cache of 10-24 pages and statements that dirty hundreds of pages (the statement may be refused with 'cache is full', but must not push its own half-done pages to the data file). Distinct = (pass, statement, placement); non-trivial = the statement was actually held open (parked) across more than two timer periods."
+	c.Rule = "one session goroutine against the REAL 100 ms flush goroutine. Each pass executes every statement kind {CREATE TABLE, INSERT single, INSERT multi-row (splitting; also 300 rows; a table grown to 1250 rows in five statements, through the split of its internal root), UPDATE and DELETE (also over 300 rows), SELECT scan, SELECT join} with placements {idle gap > 1 tick before and after, park of > 2 ticks at the statement's 2nd page change, park of > 2 ticks inside the log append, SELECT: park at a cache miss}, on fresh pages and after a reload (cold cache); the database in use is created again and a missing one selected (both refused) before the first table; eight tables are created in one database, each CREATE held open, so that the CREATE whose catalog row splits the catalog root is among them. (a) -race build: handlers only sleep on the session goroutine and add no synchronisation; every data-race report with mkdb frames is a violation (happens-before reasoning, independent of the observed timing). (b) plain build (once as is, once with every page write of a flush slowed down to 15 ms by a sleep in the write hook, once with the database opened without fsync of the log, as csvimport -disable-wal-fsync does): every hook event is logged with its goroutine id; offline checker: no page or header write by ANY goroutine between a statement's first page change and the completion of its log append (CREATE TABLE: its last page change; an accepted INSERT / UPDATE / DELETE that returns without a completed log append keeps its window open until one completes); the same checker - and the race build - runs over passes with a page cache of 10-24 pages and statements that dirty hundreds of pages (the statement may be refused with 'cache is full', but must not push its own half-done pages to the data file). Distinct = (pass, statement, placement); non-trivial = the statement was actually held open (parked) across more than two timer periods."
 	c.Assume = []string{"a park of 230-400 ms spans at least two 100 ms ticks", "handlers of the race build run on the session goroutine only and share nothing with the flusher"}
 	passes := 2
 	if !core.Quick(c) {
@@ -236,7 +244,7 @@ func checkC13(c *core.Ctx) []core.Floor {
 	}
 	var jobs []job
 	for p := 0; p < passes; p++ {
-		jobs = append(jobs, job{"log", p}, job{"race", p}, job{"log-slow", p})
+		jobs = append(jobs, job{"log", p}, job{"race", p}, job{"log-slow", p}, job{"log-nosync", p})
 	}
 	core.ParallelFor(len(jobs), c.Workers, func(ji int) {
 		j := jobs[ji]
@@ -250,6 +258,9 @@ func checkC13(c *core.Ctx) []core.Floor {
 		} else {
 			if j.mode == "log-slow" {
 				c.Count("log_build_runs_with_slow_page_writes", 1)
+			}
+			if j.mode == "log-nosync" {
+				c.Count("log_build_runs_without_fsync_of_the_log", 1)
 			}
 			runC13Log(c, plain, dir, sc, pass, j.pass)
 		}
@@ -365,7 +376,13 @@ func runC13Log(c *core.Ctx, drv, dir string, sc script, pass []c13Stmt, passNo i
 			si++
 		}
 	}
-	c13CheckWindows(c, evRes.Events, evRes.N, byStmt, passNo)
+	accepted := map[int]bool{}
+	for k, op := range sc.ops {
+		if op.K == "c13stmt" && k < len(out.Res) && !out.Res[k].Failed() {
+			accepted[op.ID] = true
+		}
+	}
+	c13CheckWindows(c, evRes.Events, evRes.N, byStmt, accepted, passNo)
 	c.Sample(2, map[string]interface{}{"pass": passNo, "statements": len(pass), "events": len(evRes.Events), "example_statement": pass[7].sql, "park": pass[7].park})
 }
 
@@ -373,10 +390,13 @@ func runC13Log(c *core.Ctx, drv, dir string, sc script, pass []c13Stmt, passNo i
 // statement's first page change and the completion of its log append nothing
 // is written to the data file - not by the flusher, and not by the statement
 // itself either.
-func c13CheckWindows(c *core.Ctx, events []proto.Event, sess int64, byStmt map[int]string, passNo int) {
+func c13CheckWindows(c *core.Ctx, events []proto.Event, sess int64, byStmt map[int]string, accepted map[int]bool, passNo int) {
 	c.Count("events_logged", int64(len(events)))
 	// windows
-	type win struct{ begin, end, first, last int }
+	type win struct {
+		begin, end, first, last int
+		logged                  bool // the statement completed a log append
+	}
 	var cur *win
 	inStmt := false
 	var wins []struct {
@@ -405,6 +425,7 @@ func c13CheckWindows(c *core.Ctx, events []proto.Event, sess int64, byStmt map[i
 		case inStmt && e.G == sess && e.K == "walDone":
 			if cur.first >= 0 {
 				cur.last = e.Seq
+				cur.logged = true
 			}
 		}
 		if (e.K == "flushBegin") && e.G != sess {
@@ -416,6 +437,20 @@ func c13CheckWindows(c *core.Ctx, events []proto.Event, sess int64, byStmt map[i
 			continue
 		}
 		c.Count("statement_windows_checked", 1)
+		kind0 := strings.ToLower(strings.Fields(byStmt[w.stmt])[0])
+		if !w.w.logged && accepted[w.stmt] && (kind0 == "insert" || kind0 == "update" || kind0 == "delete") {
+			// an accepted INSERT / UPDATE / DELETE that changed pages and
+			// returned without having completed a log append: its window stays
+			// open until a log append does complete (or for good)
+			w.w.last = 1 << 60
+			for _, e := range events {
+				if e.Seq > w.w.end && e.G == sess && e.K == "walDone" {
+					w.w.last = e.Seq
+					break
+				}
+			}
+			c.Count("accepted_statements_that_returned_without_a_completed_log_append", 1)
+		}
 		for _, e := range events {
 			if e.Seq <= w.w.first || e.Seq >= w.w.last {
 				continue
@@ -521,7 +556,13 @@ func runC13Saturated(c *core.Ctx, drv string, passNo int, race bool) {
 		c13RaceReports(c, dir, 1000+passNo, "race build, real ticker, page cache of 10-24 pages")
 		return
 	}
-	c13CheckWindows(c, out.Res[ev].Events, out.Res[ev].N, byStmt, 1000+passNo)
+	accepted := map[int]bool{}
+	for _, id := range ids {
+		if !out.Res[id].Failed() {
+			accepted[s.ops[id].ID] = true
+		}
+	}
+	c13CheckWindows(c, out.Res[ev].Events, out.Res[ev].N, byStmt, accepted, 1000+passNo)
 }
 
 // c13InScope: the session side of the report runs one of the five statement
